@@ -106,7 +106,13 @@ static bool g_ready = false;
 
 static void spin_loop() { g_loop->runNext([] {}, "spin"); g_loop->runLoop(event::Loop::Mode::kOnce); }
 
-static void do_exec(int k, int prio, int dur_us, bool cb) {
+// "work" executions have a second loop B on a thread of its own: a task may name the loop its completion callback must run on
+static event::Loop *g_loopB = nullptr;
+static std::thread g_thB;
+static thread_local bool tl_is_b = false;
+static const char *on_which() { return is_main() ? "M" : tl_is_b ? "B" : "X"; }
+
+static void do_exec(int k, int prio, int dur_us, bool cb, bool onB = false) {
     while ((int)g_tasks.size() <= k) g_tasks.push_back(new TaskRec);
     TaskRec *r = g_tasks[k];
     r->has_cb = cb;
@@ -116,11 +122,12 @@ static void do_exec(int k, int prio, int dur_us, bool cb) {
         if (dur_us > 0) std::this_thread::sleep_for(std::chrono::microseconds(dur_us));
         r->body++;
     };
-    auto done = [k, r] { emit(J("cb") + kv("t", k) + kb("main", is_main()) + "}"); r->cb++; };
+    auto done = [k, r] { emit(J("cb") + kv("t", k) + ks("on", on_which()) + "}"); r->cb++; };
+    onB = onB && g_work && g_loopB && cb;
     CallGuard cg;
     // the "exec" event is emitted inside execute() by the hook; the cb flag is emitted just before as its own event
-    emit(J("submit") + kv("t", k) + kb("cb", cb) + kv("prio", g_work ? -2 : prio) + "}");   // WorkThread: one FIFO queue (level 0)
-    if (g_work) { if (cb) r->tok = g_work->execute(body, done); else r->tok = g_work->execute(body); }
+    emit(J("submit") + kv("t", k) + kb("cb", cb) + kv("prio", g_work ? -2 : prio) + ks("loop", onB ? "B" : "M") + "}");   // WorkThread: one FIFO queue (level 0)
+    if (g_work) { if (cb) r->tok = onB ? g_work->execute(body, done, g_loopB) : g_work->execute(body, done); else r->tok = g_work->execute(body); }
     else if (cb) r->tok = g_pool->execute(body, done, prio); else r->tok = g_pool->execute(body, prio);
     r->accepted = !r->tok.isNull();
     if (!r->accepted) emit(J("rejected") + kv("t", k) + "}");
@@ -184,13 +191,15 @@ static void run_execution(const json &x) {
         emit(J("spawn") + kv("w", 1) + kv("n", 1) + "}"); emit(J("init") + kv("min", 1) + kv("max", 1) + "}");
         { std::lock_guard<std::mutex> g(g_mapm); g_next_worker = 1; }
         g_work = new eventx::WorkThread(g_loop); g_pool = nullptr; g_ready = true;
+        g_loopB = event::Loop::New();
+        {   event::Loop *lb = g_loopB; g_thB = std::thread([lb] { tl_is_b = true; lb->runLoop(event::Loop::Mode::kForever); }); }
     } else { g_work = nullptr; g_pool = new eventx::ThreadPool(g_loop); }
     bool dropped_since_init = false;
     for (auto &op : x["ops"]) {
         std::string o = op["o"];
         if (op.value("call", false)) { if (S().seq_wait("M", "call")) S().seq_done("M", "call"); }     // its turn in the replayed behaviour
         if (o == "init") { do_init(op["min"], op["max"]); }
-        else if (o == "exec") do_exec(op["t"], op.value("prio", 0), op.value("us", 0), op.value("cb", false));
+        else if (o == "exec") do_exec(op["t"], op.value("prio", 0), op.value("us", 0), op.value("cb", false), op.value("loop", std::string("M")) == "B");
         else if (o == "status") do_status(op["t"]);
         else if (o == "cancel") do_cancel(op["t"]);
         else if (o == "spin") { for (int i = 0; i < op.value("n", 1); ++i) spin_loop(); }
@@ -207,6 +216,11 @@ static void run_execution(const json &x) {
     for (int i = 0; i < 3; ++i) spin_loop();          // drain posted completion callbacks / join closures
     {   CallGuard cg; delete g_pool; g_pool = nullptr; delete g_work; g_work = nullptr; }
     for (int i = 0; i < 2; ++i) spin_loop();
+    if (g_loopB) {          // loop B runs what was posted to it, then stops
+        event::Loop *lb = g_loopB;
+        {   CallGuard cg; lb->runInLoop([lb] { lb->exitLoop(); }, "verif"); g_thB.join(); }
+        delete lb; g_loopB = nullptr;
+    }
     emit(J("end") + kv("gate_timeouts", S().gate_timeouts.load()) + kv("seq_diverged", S().seq_diverged.load()) + kv("seq_div_at", S().seq_div_at) + ks("seq_div_who", S().seq_div_who + (S().seq_div_at >= 0 && (size_t)S().seq_div_at < S().seq.size() ? " expected " + S().seq[S().seq_div_at].first + ":" + S().seq[S().seq_div_at].second : std::string())) + "}");
     flush_events(true);
 }
@@ -232,7 +246,7 @@ static json random_execution(vh::Rng &rng, uint64_t seed) {
         if (r < 45 || nt == 0) {
             ++nt;
             int us = rng.chance(50) ? 0 : rng.chance(70) ? (int)rng.range(1, 300) : (int)rng.range(300, 3000);
-            ops.push_back({{"o", "exec"}, {"t", nt}, {"prio", (int)rng.range(-3, 3)}, {"us", us}, {"cb", rng.chance(50)}});
+            ops.push_back({{"o", "exec"}, {"t", nt}, {"prio", (int)rng.range(-3, 3)}, {"us", us}, {"cb", rng.chance(50)}, {"loop", (work && rng.chance(40)) ? "B" : "M"}});
         } else if (r < 65) ops.push_back({{"o", "status"}, {"t", (int)rng.range(1, nt)}});
         else if (r < 80) ops.push_back({{"o", "cancel"}, {"t", (int)rng.range(1, nt)}});
         else if (r < 90) ops.push_back({{"o", "spin"}, {"n", (int)rng.range(1, 3)}});
